@@ -8,6 +8,7 @@
 from vlib.facts import kids, strip, walk, is_call, call_args, callee, render, literal
 from vlib.cfg import write_target
 from vlib.work import AnalysisBroken
+from vlib.flow import sequenced_before
 
 UNITS = ["src/occa/internal/c/types.cpp"]
 SCALARS = ["bool_", "int8_", "uint8_", "int16_", "uint16_", "int32_", "uint32_", "int64_", "uint64_", "float_", "double_"]
@@ -41,6 +42,7 @@ def run(ctx):
     R.rule("C29-R1", "newOccaType<T>: tag, sizeof and union member correspond to T", floor=11)
     R.rule("C29-R2", "scalar conversion switch covers all 11 scalar tags", floor=6)
     R.rule("C29-R3", "needsFree set exactly for the kinds occaFree deletes; json delete guarded by the flag", floor=4)
+    R.rule("C29-R5", "setters convert the C value before they touch the target container (C++17 evaluation order)", floor=3)
     R.rule("C29-R4", "typed accessor checks the tag before casting the pointer", floor=8)
 
     fns = [f for f in prog.funcs.values() if f.d["file"].endswith("src/occa/internal/c/types.cpp") and f.d.get("tmpl") != "pattern"]
@@ -178,6 +180,37 @@ def run(ctx):
             R.ob("C29-R4", ok, f.q, "cast:ptr as %s" % a, f.site(n), "tag checked before the pointer is reinterpreted" if ok else "the payload pointer is reinterpreted without checking the occaType tag")
         if not casts:
             raise AnalysisBroken("C accessor %s: pointer cast not found" % f.q)
+
+    # ---- R5: inferJson() may throw (unsupported occaType) and reads the argument, which may alias the target; a setter that creates the
+    #          target entry first leaves a phantom entry behind a rejected set and stores a copy of the already modified container ----------
+    jp = ctx.program(["src/c/json.cpp"], thorough_all=False)
+    n5 = 0
+    for f in jp.funcs.values():
+        if f.d.get("tmpl") == "inst" or not f.d["file"].endswith("src/c/json.cpp"):
+            continue
+        convs = [c for c in f.walk() if is_call(c) and callee(c) == "occa::c::inferJson"]
+        if not convs:
+            continue
+        # mutators of the json target: inserting operator[], +=, container insert/push_back on something derived from the target handle
+        muts = []
+        for c in f.walk():
+            cq = callee(c) if is_call(c) else ""
+            if c["k"] == "CXXOperatorCallExpr" and cq.startswith("occa::json::operator[]") and "const" not in c.get("csig", "").split(")")[-1]:
+                muts.append((c, "operator[] (creates a missing entry)"))
+            elif c["k"] == "CXXOperatorCallExpr" and cq.startswith("occa::json::operator+="):
+                muts.append((c, "operator+="))
+            elif c["k"] == "CXXMemberCallExpr" and cq.split("::")[-1] in ("insert", "push_back", "emplace_back", "emplace") and "std::vector<occa::json" in cq:
+                muts.append((c, cq.split("::")[-1]))
+        for cv in convs:
+            for (m, what) in muts:
+                sb = sequenced_before(f, cv, m)
+                n5 += 1
+                R.ob("C29-R5", sb is True, f.q, "convert before %s" % what, f.site(m),
+                     "the value is converted before the target is modified" if sb is True else
+                     "the target is modified %s the C value is converted: a rejected value (inferJson throws) leaves a phantom entry, and a value that aliases the target is copied after the modification"
+                     % ("before" if sb is False else "in an order C++ does not fix relative to when"))
+    if n5 < 3:
+        raise AnalysisBroken("C API json setters: only %d conversion/mutation pairs found" % n5)
 
 
 META = {
